@@ -476,7 +476,7 @@ def run_one(tape, tier, prop):
 # the real program on a real stdin pipe (validation of the keyboard seam: the scheduler scripts input(); a change that
 # reads standard input some other way -- select(), readline() on the buffer -- would walk past that seam)
 
-def _real_keyboard_case(name, writes, session_name):
+def _real_keyboard_case(name, writes, session_name, close_after=False):
     """writes: [(delay_s, bytes)] written to a stdin pipe that stays open.  Real time is involved, so the cut point is not
     reproducible; the verdict does not depend on it: after the quit has been written the process must end by itself, with
     a save file, and what it wrote must be a prefix of the stream of an uninterrupted run."""
@@ -518,6 +518,12 @@ def _real_keyboard_case(name, writes, session_name):
                 proc.stdin.flush()
             except OSError:
                 break
+        if close_after:
+            # end of input right after the last (unterminated) line
+            try:
+                proc.stdin.close()
+            except OSError:
+                pass
         try:
             rc = proc.wait(timeout=120)
         except subprocess.TimeoutExpired:
@@ -565,11 +571,14 @@ def extra_phase(tier, base_seed):
     cases = [("status_and_quit_in_one_write", [(3.0, b"\nq\n")]),
              ("quit_alone", [(3.0, b"q\n")]),
              ("help_status_quit_spaced", [(2.5, b"h\n"), (0.4, b"\n"), (0.4, b"q\n")]),
-             ("three_lines_in_one_write_before_start", [(0.0, b"zz\n\nq\n")])]
+             ("three_lines_in_one_write_before_start", [(0.0, b"zz\n\nq\n")], False),
+             ("unterminated_quit_then_end_of_input", [(3.0, b"q")], True),
+             ("status_then_unterminated_quit_then_end_of_input", [(2.5, b"\n"), (0.5, b"q")], True)]
+    cases = [c if len(c) == 3 else (c[0], c[1], False) for c in cases]
     if tier == "quick":
-        cases = cases[:2]
-    jobs = [(nm, wr_, "RK%d_%d" % (base_seed % 1000, i)) for i, (nm, wr_) in enumerate(cases)]
-    for r in bigworld._fan_out(_real_keyboard_case, jobs, workers=4):
+        cases = [cases[0], cases[1], cases[4]]
+    jobs = [(nm, wr_, "RK%d_%d" % (base_seed % 1000, i), cl) for i, (nm, wr_, cl) in enumerate(cases)]
+    for r in bigworld._fan_out(_real_keyboard_case, jobs, workers=6):
         out["real_process_keyboard_cases"] += 1
         out["real_process_lines"] += r["lines"]
         if r["problem"]:
